@@ -62,13 +62,18 @@ pub fn make_module() -> KMap {
     }
 
     macro_rules! bitwise_fn_positive_arg {
-        ($name:ident, $op:tt) => {
+        ($name:ident, $op:ident) => {
             result.add_fn(stringify!($name), |ctx| {
                 let expected_error = "|Number, Number|";
 
                 match ctx.instance_and_args(is_number, expected_error)? {
                     (Number(a), [Number(b)]) if *b >= 0 => {
-                        Ok((i64::from(a) $op i64::from(b)).into())
+                        // The shift amount must be less than the number of bits in an i64
+                        let shift = u32::try_from(i64::from(b)).ok();
+                        match shift.and_then(|shift| i64::from(a).$op(shift)) {
+                            Some(result) => Ok(result.into()),
+                            None => runtime_error!("the shift amount must be less than 64"),
+                        }
                     }
                     (instance, args) => {
                         unexpected_args_after_instance(expected_error, instance, args)
@@ -185,8 +190,8 @@ pub fn make_module() -> KMap {
     number_f64_fn!(recip);
     number_fn!(round);
 
-    bitwise_fn_positive_arg!(shift_left, <<);
-    bitwise_fn_positive_arg!(shift_right, >>);
+    bitwise_fn_positive_arg!(shift_left, checked_shl);
+    bitwise_fn_positive_arg!(shift_right, checked_shr);
 
     number_f64_fn!(sin);
     number_f64_fn!(sinh);
